@@ -595,3 +595,106 @@ def euler_inv(ctx):
         ctx.ob('EULER-INV', ok, None, '%s is recovered on its whole domain %s' % (nm, dom),
                f=f_to, key='closed-' + nm,
                why='mat_to_rph does not return the %s that mat_from_rph was given: %s' % (nm, why))
+
+
+# ------------------------------------------------------------------ ANGLE-RANGE
+_HALF_RANGE = {'numpy.arctan': '(-90, 90)', 'numpy.arcsin': '[-90, 90]', 'numpy.arccos': '[0, 180]',
+               'math.atan': '(-90, 90)', 'math.asin': '[-90, 90]', 'math.acos': '[0, 180]'}
+_FULL = {'roll': 0, 'heading': 2, 'lon': 1}
+
+
+def _strip_scale(e, resolve):
+    """the inverse-trigonometric call under positive/negative scalings, unit conversions and
+    np.where / clip wrappers of its argument: (call node or None)"""
+    while True:
+        if isinstance(e, ast.UnaryOp) and isinstance(e.op, (ast.USub, ast.UAdd)):
+            e = e.operand
+        elif isinstance(e, ast.BinOp) and isinstance(e.op, (ast.Mult, ast.Div)):
+            l_call = any(isinstance(x, ast.Call) for x in ast.walk(e.left))
+            r_call = any(isinstance(x, ast.Call) for x in ast.walk(e.right))
+            if l_call and not r_call:
+                e = e.left
+            elif r_call and not l_call and isinstance(e.op, ast.Mult):
+                e = e.right
+            else:
+                return None
+        elif isinstance(e, ast.Call) and resolve(e.func) in ('numpy.rad2deg', 'numpy.degrees',
+                                                              'numpy.asarray', 'numpy.array') \
+                and len(e.args) >= 1:
+            e = e.args[0]
+        elif isinstance(e, ast.Call) and resolve(e.func) in _HALF_RANGE:
+            return e
+        else:
+            return None
+
+
+def angle_range(ctx):
+    """A roll or heading (or longitude) that is computed as arctan / arcsin / arccos of
+    something cannot take all values of its documented domain (-180, 180]: the quadrant is
+    lost and the angle is off by 180 degrees (or mirrored) for half of the attitudes.  The
+    destination is identified by the repository's naming convention (an array named *rph*,
+    component 0 or 2; a column labelled roll / heading) - contradiction only: a store whose
+    destination is not recognised is not judged."""
+    ctx.rule('ANGLE-RANGE', 'no roll / heading (domain (-180, 180]) is produced by single-argument '
+             'arctan, arcsin or arccos (range of half a turn): hand-written Euler extraction must '
+             'use arctan2 for the two full-circle angles')
+    n = 0
+    for f in ctx.repo.all_functions():
+        loc = f.local_names()
+        resolve = lambda e: f.module.resolve(e, loc) if isinstance(e, (ast.Name, ast.Attribute)) \
+            else None
+        for st in ast.walk(f.node):
+            if not (isinstance(st, ast.Assign) and len(st.targets) == 1):
+                continue
+            t = st.targets[0]
+            which = None
+            if isinstance(t, ast.Subscript) and isinstance(t.value, ast.Name) and \
+                    'rph' in t.value.id.lower():
+                sl = t.slice
+                el = sl.elts if isinstance(sl, ast.Tuple) else [sl]
+                last = el[-1]
+                if isinstance(last, ast.Constant) and last.value in (0, 2) and \
+                        not isinstance(last.value, bool):
+                    which = 'roll' if last.value == 0 else 'heading'
+                elif isinstance(last, ast.Constant) and last.value in ('roll', 'heading'):
+                    which = last.value
+            elif isinstance(t, ast.Subscript) and isinstance(t.slice, ast.Constant) and \
+                    t.slice.value in ('roll', 'heading'):
+                which = t.slice.value
+            elif isinstance(t, ast.Attribute) and t.attr in ('roll', 'heading') and \
+                    isinstance(t.ctx, ast.Store):
+                which = t.attr
+            elif isinstance(t, ast.Name) and t.id in ('roll', 'heading'):
+                which = t.id
+            if which is None:
+                continue
+            has_trig = [x for x in ast.walk(st.value) if isinstance(x, ast.Call) and
+                        (resolve(x.func) or '').rsplit('.', 1)[-1] in
+                        ('arctan', 'arcsin', 'arccos', 'arctan2', 'atan', 'asin', 'acos', 'atan2')]
+            if not has_trig:
+                continue
+            n += 1
+            call = _strip_scale(st.value, resolve)
+            if call is None:
+                ctx.ob('ANGLE-RANGE', True, None, '%s: %s is not a bare half-range inverse function'
+                       % (f.qualname, which), f=f, node=st, key='range-%s-%s' % (f.qualname, which))
+                continue
+            q = resolve(call.func)
+            ctx.ob('ANGLE-RANGE', False, None, '%s: %s covers its whole domain' % (f.qualname, which),
+                   f=f, node=st, key='range-%s-%s' % (f.qualname, which),
+                   why='%s is computed as %s(...), whose values lie in %s degrees, but %s ranges '
+                       'over (-180, 180]: for half of the attitudes the reported angle is off by '
+                       '180 degrees (quadrant lost); use arctan2' % (
+                           which, q.split('.')[-1], _HALF_RANGE[q], which))
+    ctx.floor('ANGLE-RANGE', n, 1, 'roll/heading values computed by inverse trigonometric functions')
+    # positive fixture
+    if not ctx.cache.get('angle-range-fixture'):
+        ctx.cache['angle-range-fixture'] = True
+        e = ast.parse('-np.arctan(m[:, 2, 1] / m[:, 2, 2]) * R2D', mode='eval').body
+        e2 = ast.parse('np.rad2deg(np.arctan2(a, b))', mode='eval').body
+        rs = lambda x: norm_text(x).replace('np.', 'numpy.') if isinstance(
+            x, (ast.Name, ast.Attribute)) else None
+        if _strip_scale(e, rs) is None or _strip_scale(e2, rs) is not None:
+            raise AnalysisError('ANGLE-RANGE fixture not recognised')
+        ctx.ob('ANGLE-RANGE', True, None, 'positive fixture: scaled single-argument arctan '
+               'recognised, arctan2 not', key='fixture')
